@@ -63,6 +63,13 @@ OUTPUT_FILES = {
 }
 
 
+def _format_data(key: str, value: Any) -> str:
+    """Format a ``keyword value`` line (just the keyword for None)."""
+    if value is None:
+        return str(key)
+    return f"{key} {value}"
+
+
 class SectionNode:
     """A class representing a section in the CP2K input.
 
@@ -98,7 +105,12 @@ class SectionNode:
         self.parent = parent
         self.settings = settings
         if data:
-            self.data = list(data)
+            if isinstance(data, dict):
+                self.data = [
+                    _format_data(key, val) for key, val in data.items()
+                ]
+            else:
+                self.data = list(data)
         else:
             self.data = []
         self.children: set[SectionNode] = set()
@@ -282,17 +294,14 @@ def update_node(
         for line in node.data:
             key = line.split()[0]
             if key in data:
-                new_data.append(f"{key} {data[key]}")
+                new_data.append(_format_data(key, data[key]))
                 done.add(key)
             else:
                 new_data.append(line)
         for key in data:
             if key in done:
                 continue
-            if data[key] is None:
-                new_data.append(str(key))
-            else:
-                new_data.append(f"{key} {data[key]}")
+            new_data.append(_format_data(key, data[key]))
         node.data = list(new_data)
     else:
         node.data = list(data)
